@@ -13,7 +13,7 @@ EXPLANATION = (
     "free variables; empty quantifier removal only for an empty list; joining only equal quantifiers; scope extension only for and/or without "
     "variable collision; definition substitution only for an existential variable not occurring in its definition and of a compatible sort; "
     "domain restriction only general-outer / integer-inner). RW-5: removal by value after selection by index is guarded. STRATEGY: the CLI composes "
-    "[I], [I,HT], [I,HT,C] and dispatches shallow / recursive / fixpoint to f, apply, apply_fixpoint; compose applies left to right.")
+    "[I], [I,HT], [I,HT,C] and dispatches shallow / recursive / fixpoint to f, apply, apply_fixpoint; compose applies left to right. SHARED: Variable -> term conversions keep the sort (collect.check_variable_conversions).")
 UNDECIDED = ["equivalence of the non-schematic classical rules (substitute_defined_variables, restrict_quantifier_domain, simplify_transitive_equality) "
              "beyond their side conditions", "termination (C18)"]
 ASSUMPTIONS = ["non-empty constant domains (quantifier rules)", "comparisons are two-valued and the order is total and reflexive"]
